@@ -199,8 +199,9 @@ class Gen:
         return lines, assigned
 
     def block_if(self, pool, assigned, cond_vars, newname):
-        """Stratum A block IF: no nesting; every branch assigns the same symbols exactly once; an ELSE is present
-        unless every assigned symbol already has a value; conditions never read a symbol the block assigns."""
+        """Stratum A block IF: no nesting; every branch assigns the same symbols exactly once (plus, sometimes, one
+        symbol with a previous value that only the IF branch re-assigns); an ELSE is present unless every assigned
+        symbol already has a value; conditions never read a symbol the block assigns."""
         r = self.rng
         strata = self.strata
         nbr = r.randint(1, 3)
@@ -223,6 +224,12 @@ class Gen:
             special = r.choice(cand)
         if special == "cond_var_modified" and not [t for t in targets if t in assigned]:
             special = None
+        if_only = None
+        if special is None and r.random() < 0.35:
+            cand_io = [t for t in assigned if t not in targets]
+            if cand_io:
+                if_only = r.choice(cand_io)
+                cvars = [v for v in cvars if v != if_only] or list(COVS)
         for b in range(nbr):
             kw = "IF" if b == 0 else "ELSE IF"
             cond_tag = False
@@ -244,6 +251,10 @@ class Gen:
             lines.append(f"{kw} ({c}) THEN" + (" ;#C" if cond_tag else ""))
             for t in order:
                 lines.append(f"  {t} = {self.expr([p for p in pool if p not in new_targets])}")
+            if b == 0 and if_only is not None:
+                # a symbol that already has a value is re-assigned in the IF branch only (the other branches, also an
+                # ELSE, leave it alone): on those paths it keeps its previous value
+                lines.append(f"  {if_only} = {self.expr([p for p in pool if p not in new_targets])}")
             if special == "double_assign" and b == 0:
                 t = order[0]
                 lines.append(f"  {t} = {t}*{self.lit()} ;#S")
